@@ -381,7 +381,8 @@ type c17LLRoles struct {
 	acqHelpers map[*types.Func]*flow.Func // methods of LimitListener that acquire the semaphore
 	relHelpers map[*types.Func]*flow.Func // methods of LimitListener that release it
 	connT      *types.Named               // wrapper type returned by Accept
-	relField   *types.Var                 // its func() field
+	relField   *types.Var                 // the field that carries the release: a func(), or (back) a *LimitListener
+	back       bool
 	onceFields []*types.Var
 }
 
@@ -458,12 +459,19 @@ func c17ResolveLL(c *core.Ctx) *c17LLRoles {
 		c.Errorf("R-C17-2: anchor: no connection wrapper (struct embedding net.Conn) in %s", c17LL)
 		return nil
 	}
+	// what the connection carries to give its slot back: a release func() field, or a back-pointer to the
+	// listener (the release is then reached as <conn>.<listener>.release)
 	rf := c17FieldsByType(r.connT, "func()")
-	if len(rf) != 1 {
-		c.Errorf("R-C17-2: anchor: wrapper %s has %d func() fields, expected 1 (the release func)", r.connT.Obj().Name(), len(rf))
+	bf := c17FieldsByType(r.connT, c17LLT)
+	switch {
+	case len(rf) == 1:
+		r.relField = rf[0]
+	case len(rf) == 0 && len(bf) == 1:
+		r.relField, r.back = bf[0], true
+	default:
+		c.Errorf("R-C17-2: anchor: wrapper %s has %d func() fields and %d *LimitListener fields, expected exactly one carrier of the release", r.connT.Obj().Name(), len(rf), len(bf))
 		return nil
 	}
-	r.relField = rf[0]
 	r.onceFields = c17FieldsByType(r.connT, "sync.Once")
 	return r
 }
@@ -846,7 +854,7 @@ func c17Transfers(f *flow.Func, r *c17LLRoles, e ast.Expr, depth int) bool {
 			if fld != r.relField {
 				continue
 			}
-			return c17IsReleaseValue(f, r, val)
+			return c17CarrierValue(f, r, val)
 		}
 		return false
 	case *ast.Ident:
@@ -887,7 +895,7 @@ func c17Transfers(f *flow.Func, r *c17LLRoles, e ast.Expr, depth int) bool {
 			return false
 		}
 		sets := c17ReleaseSets(f, r, obj)
-		return len(sets) == 1 && c17IsReleaseValue(f, r, sets[0])
+		return len(sets) == 1 && c17CarrierValue(f, r, sets[0])
 	}
 	return false
 }
@@ -928,6 +936,65 @@ func c17ReleaseSets(f *flow.Func, r *c17LLRoles, obj types.Object) []ast.Expr {
 		return true
 	})
 	return out
+}
+
+// c17Receiver returns the receiver variable of the method f wraps (nil for functions / literals).
+func c17Receiver(f *flow.Func) types.Object {
+	if fd, ok := f.Node.(*ast.FuncDecl); ok && fd.Recv != nil && len(fd.Recv.List) == 1 && len(fd.Recv.List[0].Names) == 1 {
+		return f.Info.Defs[fd.Recv.List[0].Names[0]]
+	}
+	return nil
+}
+
+// c17CarrierValue: the value stored in the wrapper's carrier field hands over the release of THIS
+// listener: a release value (func() carrier) or the listener itself, i.e. the method's receiver
+// (back-pointer carrier).
+func c17CarrierValue(f *flow.Func, r *c17LLRoles, e ast.Expr) bool {
+	if e == nil {
+		return false
+	}
+	if !r.back {
+		return c17IsReleaseValue(f, r, e)
+	}
+	recv := c17Receiver(f)
+	return recv != nil && c17Obj(f, e) == recv
+}
+
+// c17ViaCarrier: the selector chain of e passes through the wrapper's carrier field.
+func c17ViaCarrier(f *flow.Func, r *c17LLRoles, e ast.Expr) bool {
+	for {
+		sel, ok := ast.Unparen(e).(*ast.SelectorExpr)
+		if !ok {
+			return false
+		}
+		if c17Field(f, sel) == r.relField {
+			return true
+		}
+		e = sel.X
+	}
+}
+
+// c17CarrierRelease: e is the release reached through the carrier: the func() field itself, or (back
+// pointer) the method value <conn>.<listener>.release / <conn>.<listener>.sem.Release.
+func c17CarrierRelease(f *flow.Func, r *c17LLRoles, e ast.Expr) bool {
+	e = ast.Unparen(e)
+	if !r.back {
+		return c17Field(f, e) == r.relField
+	}
+	sel, ok := e.(*ast.SelectorExpr)
+	if !ok || !c17ViaCarrier(f, r, sel.X) {
+		return false
+	}
+	if s := f.Info.Selections[sel]; s != nil && (s.Kind() == types.MethodVal) {
+		if fo, ok := s.Obj().(*types.Func); ok {
+			if r.relHelpers[fo] != nil {
+				return true
+			}
+			sig, _ := fo.Type().(*types.Signature)
+			return sig != nil && sig.Recv() != nil && sig.Recv().Type().String() == c17SemT && fo.Name() == "Release"
+		}
+	}
+	return false
 }
 
 // c17FreshWrapper: obj is a local defined exactly once, from a composite literal of the wrapper type.
@@ -1216,14 +1283,14 @@ func c17Conn(c *core.Ctx) {
 			return false
 		}
 		arg := ast.Unparen(call.Args[0])
-		if c17Field(ff, arg) == r.relField {
+		if c17CarrierRelease(ff, r, arg) {
 			return true
 		}
 		if lit, ok := arg.(*ast.FuncLit); ok {
 			// func() { l.release() }
 			n := 0
 			for _, ic := range calls(lit.Body, false) {
-				if c17Field(ff, ic.Fun) == r.relField {
+				if c17CarrierRelease(ff, r, ic.Fun) {
 					n++
 				}
 			}
@@ -1293,7 +1360,7 @@ func c17Conn(c *core.Ctx) {
 				if isInnerClose(ic) {
 					closed = true
 				}
-				if c17Field(f, ic.Fun) == r.relField {
+				if c17CarrierRelease(f, r, ic.Fun) {
 					return closed
 				}
 			}
@@ -1371,7 +1438,7 @@ func c17Conn(c *core.Ctx) {
 							}
 						}
 						if obj := c17Obj(ff, sel.X); isLHS && obj != nil && c17FreshWrapper(ff, r, obj) {
-							if sets := c17ReleaseSets(ff, r, obj); len(sets) == 1 && c17IsReleaseValue(ff, r, sets[0]) {
+							if sets := c17ReleaseSets(ff, r, obj); len(sets) == 1 && c17CarrierValue(ff, r, sets[0]) {
 								okRefs++
 								return true
 							}
@@ -1381,6 +1448,33 @@ func c17Conn(c *core.Ctx) {
 				// inside an accepted Once.Do call
 				for p := pm[id]; p != nil; p = pm[p] {
 					if call, ok := p.(*ast.CallExpr); ok && isOnceDo(ff, call) {
+						okRefs++
+						return true
+					}
+				}
+				if r.back {
+					// a back-pointer may be read for other purposes; what must not happen outside
+					// the Once is an assignment to it or a release reached through it
+					harmless := true
+					var top ast.Node = id
+					for {
+						sel, ok := pm[top].(*ast.SelectorExpr)
+						if !ok || (sel.X != top.(ast.Expr) && sel.Sel != top) {
+							break
+						}
+						top = sel
+						if c17CarrierRelease(ff, r, sel) {
+							harmless = false
+						}
+					}
+					if as, ok := pm[top].(*ast.AssignStmt); ok {
+						for _, l := range as.Lhs {
+							if ast.Unparen(l) == top.(ast.Expr) && c17Field(ff, l) == r.relField {
+								harmless = false
+							}
+						}
+					}
+					if harmless {
 						okRefs++
 						return true
 					}
